@@ -21,7 +21,7 @@ RULE = ("cases: random recipes (all connectives, DAG sharing, integer leaves inc
 BUDGET = {"quick": (12, 260, 90), "thorough": (16, 2200, 1200)}
 PYTEST = True     # thorough tier also runs the repository's own tests under these monitors
 MANDATORY = ["judged:node-value", "judged:top-present", "judged:evaluate==top-entry", "judged:variable.evaluate",
-             "contract:AtLeast.evaluate_propositions", "contract:AtLeast.evaluate", "count:override-cases", "count:out-of-bounds-values", "count:same-object-same-dict-calls"]
+             "contract:AtLeast.evaluate_propositions", "contract:AtLeast.evaluate", "count:override-cases", "count:out-of-bounds-values", "count:same-object-same-dict-calls", "count:what-if-sequences", "count:dict-subclass-interpretations"]
 
 
 def split_interpretation(graph, interp):
@@ -166,7 +166,7 @@ def gen_case(rng, tier, ctx, i):
         return None
     # pre-fix some explicitly named sub-propositions
     if rng.random() < 0.25:
-        nodes = [n for n in refmodel.recipe_nodes(rec)[1:] if n.get("id") and n["k"] not in ("var", "str", "ref", "Not")]
+        nodes = [n for n in refmodel.recipe_nodes(rec) if n.get("id") and n["k"] not in ("var", "str", "ref", "Not")]
         for n in rng.sample(nodes, min(len(nodes), rng.randint(1, 2))):
             n["fix"] = rng.choice([0, 1])
     return common.with_twins(rng, {"recipe": rec, "seed": rng.getrandbits(32)})
@@ -199,6 +199,22 @@ def _run_one(case, ctx):
                 ctx.call("evaluate_propositions", same.evaluate_propositions, d)
             else:
                 ctx.call("evaluate", same.evaluate, d)
+    # what-if questions in a row on ONE model object: every interpretation fixes all leaves and names the same sub-proposition
+    # ids (so whatever an earlier call left on those nodes is overwritten): the named nodes must take the value given NOW
+    if rng.random() < 0.3 and comp:
+        same = recipes.fresh(case["recipe"])
+        named = [top] if rng.random() < 0.6 else [rng.choice(comp)]
+        if rng.random() < 0.3:
+            named = list({top, rng.choice(comp)})
+        for x, _ex in refmodel.assignments(ids, bounds, rng, 4):
+            d = common.interp(rng, x)
+            for c in named:
+                d[c] = common.value_form(rng, rng.choice([0, 1]))
+            ctx.count("count:what-if-sequences")
+            if rng.random() < 0.6:
+                ctx.call("evaluate", same.evaluate, d)
+            else:
+                ctx.call("evaluate_propositions", same.evaluate_propositions, d)
     for x, _ex in refmodel.assignments(ids, bounds, rng, cap):
         if rng.random() < 0.12 and ids:
             # the interpretation wins over the declared bounds (documented by variable.evaluate): values outside them
@@ -214,6 +230,15 @@ def _run_one(case, ctx):
         if rng.random() < 0.2:
             interp["no-such-id"] = 1
         mode = rng.random()
+        if rng.random() < 0.15 and all(isinstance(v, int) and not isinstance(v, bool) for v in interp.values()):
+            # other mapping types a caller may hold its values in (they are dicts): missing keys must stay missing
+            import collections
+            cont = rng.choice([collections.Counter, lambda d_: collections.defaultdict(int, d_), collections.OrderedDict])
+            interp = cont(interp)
+            ctx.count("count:dict-subclass-interpretations")
+            m = recipes.fresh(case["recipe"])
+            ctx.call("evaluate_propositions", m.evaluate_propositions, interp)
+            continue
         if mode < 0.5:
             m = recipes.fresh(case["recipe"])
             ctx.call("evaluate_propositions", m.evaluate_propositions, dict(interp))
